@@ -37,6 +37,20 @@ def zoned(z, *a):
     return tzp.localize(datetime(*a), z)
 
 
+def zoned_dateutil(z, *a):
+    import dateutil.tz
+    return datetime(*a, tzinfo=dateutil.tz.gettz(z))
+
+
+def zoned_other(z, *a):
+    """A value whose tzinfo comes from the library that is NOT the active provider's."""
+    if tzp.name == "zoneinfo":
+        import pytz
+        return pytz.timezone(z).localize(datetime(*a))
+    import zoneinfo
+    return datetime(*a, tzinfo=zoneinfo.ZoneInfo(z))
+
+
 def values_for(name):
     """-> list of (label, python value builder)."""
     typ, alts, is_list, _ = RP.PROPS[name]
@@ -81,6 +95,8 @@ def values_for(name):
         return [("date", lambda: date(2024, 3, 1)), ("naive", lambda: datetime(2024, 3, 1, 8, 30)),
                 ("utc", lambda: datetime(2024, 3, 1, 8, 30, tzinfo=UTC)), ("zoned", lambda: zoned(ZA, 2024, 3, 31, 3, 30)),
                 ("zoned-b", lambda: zoned(ZB, 2024, 11, 3, 1, 30)),
+                # tzinfo objects of the other two implementations (dateutil; the provider that is not active)
+                ("zoned-dateutil", lambda: zoned_dateutil(ZA, 2024, 3, 31, 3, 30)), ("zoned-other-lib", lambda: zoned_other(ZB, 2024, 11, 3, 3, 30)),
                 # the ends of the value domain: years that need zero padding, the last representable second
                 ("early-naive", lambda: datetime(800, 12, 25, 9, 30)), ("early-utc", lambda: datetime(999, 1, 2, 3, 4, 5, tzinfo=UTC)),
                 ("early-date", lambda: date(33, 4, 3)), ("late-utc", lambda: datetime(9999, 12, 31, 23, 59, 59, tzinfo=UTC))]
@@ -89,6 +105,8 @@ def values_for(name):
              ("utc", lambda: [datetime(2024, 3, 1, 8, tzinfo=UTC)]), ("single-naive", lambda: datetime(2024, 3, 1, 8)),
              ("naive-list", lambda: [datetime(2024, 3, 1, 8), datetime(2024, 3, 2, 8)]),
              ("mixed-zones", lambda: [zoned(ZA, 2024, 3, 1, 8), zoned(ZB, 2024, 3, 2, 8)]),
+             ("zoned-dateutil", lambda: [zoned_dateutil(ZA, 2024, 3, 1, 8), zoned_dateutil(ZA, 2024, 7, 2, 8)]),
+             ("zoned-other-lib", lambda: [zoned_other(ZA, 2024, 3, 1, 8), zoned_other(ZA, 2024, 7, 2, 8)]),
              ("early-naive-list", lambda: [datetime(800, 12, 25, 9, 30), datetime(9999, 12, 31, 23, 59, 59)]),
              ("early-dates", lambda: [date(33, 4, 3), date(999, 12, 31)])]
         if "PERIOD" in alts:
@@ -318,6 +336,14 @@ def run_prop(case):
         got = got_value(name, vals)
     except Exception as e:  # noqa: BLE001
         got = f"{type(e).__name__}: {e}"
+    if vlabel == "zoned-dateutil":
+        # a dateutil tzfile has no id of its own: the library names an equivalent zone (C11: "dateutil: wall time only");
+        # wall clock and UTC offset must survive, under SOME zone id
+        def anyzone(v):
+            if isinstance(v, tuple) and v and v[0] == "dt":
+                return v[:7] + ("*",) + v[8:]
+            return tuple(anyzone(i) for i in v) if isinstance(v, tuple) else v
+        want, got = anyzone(want), anyzone(got)
     if got != want:
         known = None
         if mixed and isinstance(got, tuple) and len(got) == 2 and got[1] == want[1] and got[0][1:7] == want[0][1:7] and got[0][7] == want[1][7]:
@@ -368,6 +394,9 @@ def run_prop(case):
         if zones == {"UTC"}:
             if tz is not None or not all(s.endswith("Z") for s in starts):
                 fails.append(fail("UTC-value-not-Z-without-TZID", case, "Z suffix, no TZID", ln))
+        elif vlabel == "zoned-dateutil":
+            if tz is None or any(s.endswith("Z") for s in starts):
+                fails.append(fail("zoned-value-without-a-TZID", case, "TZID=<a zone equivalent to the dateutil zone>", ln))
         elif len(zones) == 1:
             z = next(iter(zones))
             if tz != z or any(s.endswith("Z") for s in starts):
